@@ -13,6 +13,7 @@ pub fn run(_tier: Tier, seed: u64) {
 }
 
 fn unit<const N: usize>(seed: u64) {
+    key_elements_independent::<N>(seed);
     exact::<N>(seed);
     boundary_entries::<N>(seed);
     chains::<N>(seed);
@@ -134,6 +135,18 @@ fn chains<const N: usize>(seed: u64) {
 }
 
 /// an accepted signature pins the message coordinate, the key elements and the blinding factor
+/// "verifies on no tuple differing in any coordinate" needs the Y_i of a generated key to be independent elements: with
+/// y_i = y_j a signature covers the sum of the two entries.  Checked on the key generator the harnesses below use.
+fn key_elements_independent<const N: usize>(seed: u64) {
+    sx::begin(vec![], DrawMode::NonDegenerate, seed);
+    let mut rng = SeedRng::new(seed);
+    let kp = KeyPair::<N>::new(&mut rng);
+    let at = atoms::atoms_of(&kp);
+    let ys: Vec<(String, Scalar)> = at.iter().filter(|a| a.path.starts_with("pk.y2s.") || a.path == "pk.x2").map(|a| (a.path.clone(), Scalar::from_term(a.term()))).collect();
+    independent_generators(&format!("C07 KeyPair<{}>::new", N), "C07 key-elements-not-independent", &eng::axioms(), &ys);
+    eng::path_done();
+}
+
 fn uniqueness<const N: usize>(seed: u64) {
     for j in 0..N {
         sx::begin(vec![], DrawMode::NonDegenerate, seed);
